@@ -124,6 +124,32 @@ func runSession(j sessJob) (o sessObs) {
 		mk()
 		_, err := i.EvalPath("main.go")
 		return whole(err)
+	case "files-evalpath-mapfs", "files-evalpath-disk":
+		files := splitFiles(j)
+		if j.Entry == "files-evalpath-mapfs" {
+			mfs := fstest.MapFS{}
+			for name, src := range files {
+				mfs["gp/src/m/"+name] = &fstest.MapFile{Data: []byte(src)}
+			}
+			opts.SourcecodeFilesystem = mfs
+			opts.GoPath = "./gp"
+			mk()
+			_, err := i.EvalPath("m")
+			return whole(err)
+		}
+		dir := filepath.Join(j.Dir, "gp", "src", "m")
+		if err := os.MkdirAll(dir, 0o755); err != nil {
+			return sessObs{Chunk: -1, What: err.Error()}
+		}
+		for name, src := range files {
+			if err := os.WriteFile(filepath.Join(dir, name), []byte(src), 0o644); err != nil {
+				return sessObs{Chunk: -1, What: err.Error()}
+			}
+		}
+		opts.GoPath = filepath.Join(j.Dir, "gp")
+		mk()
+		_, err := i.EvalPath("m")
+		return whole(err)
 	case "whole-evalpath-disk":
 		p := filepath.Join(j.Dir, "main.go")
 		if err := os.WriteFile(p, []byte(j.Whole), 0o644); err != nil {
@@ -167,6 +193,47 @@ func runSession(j sessJob) (o sessObs) {
 		chunk.Reset()
 	}
 	return sessObs{Globals: globalsOf(i)}
+}
+
+// DepLine is what the extra declarations of the files-* entry points print before main runs:
+// a package variable declared in the file that sorts first, whose initialiser depends on
+// variables declared in files that sort later (1 + 10*2 + 100*6 + 1000*4).
+const DepLine = "dep 4621\n"
+
+// splitFiles distributes the declaration items over up to three files of package main: the
+// cut decides which consecutive items share a file, and later items go to files whose names
+// sort earlier. a.go holds a variable that depends on the globals declared elsewhere.
+func splitFiles(j sessJob) map[string]string {
+	cut := map[int]bool{}
+	for _, k := range j.Cut {
+		cut[k] = true
+	}
+	names := []string{"d.go", "c.go", "b.go"}
+	bodies := make([]string, 3)
+	fi := 0
+	for k := 2; k <= j.NDecl; k++ { // item 1 is the import
+		bodies[fi%3] += j.Items[k-1] + "\n"
+		if cut[k] {
+			fi++
+		}
+	}
+	var mainBody strings.Builder
+	mainBody.WriteString("func main() {\n")
+	for _, it := range j.Items[j.NDecl:] {
+		mainBody.WriteString(it)
+	}
+	mainBody.WriteString("}\n")
+	bodies[len(j.Cut)%3] += mainBody.String()
+	head := "package main\n\nimport \"fmt\"\n\nvar _ = fmt.Sprint\n\n"
+	files := map[string]string{
+		"a.go": head + "var dep0 = g0 + 10*g1 + 100*arr[1] + 1000*t.b\n\nfunc init() { fmt.Println(\"dep\", dep0) }\n",
+	}
+	for k, b := range bodies {
+		if b != "" {
+			files[names[k]] = head + b
+		}
+	}
+	return files
 }
 
 func firstLine(s string) string {
@@ -480,8 +547,15 @@ func run(c *fw.Ctx) error {
 			rep := map[string]any{"prog": b.Prog, "out": b.Out, "status": b.Status, "pval": b.Pval, "globals": b.Globals, "steps": b.Steps,
 				"marks": b.Marks, "cut": b.Cut, "entry": b.Entry, "items": j.Items, "observed": o, "expected_stdout": b.ExpectedStdout(), "expected_globals": want}
 			form := "piecewise"
+			wantOut := b.ExpectedStdout()
 			if strings.HasPrefix(b.Entry, "whole") {
 				form = "whole"
+			}
+			if strings.HasPrefix(b.Entry, "files") {
+				form = "files"
+				wantOut = DepLine + wantOut
+				rep["expected_stdout"] = wantOut
+				rep["files"] = splitFiles(j)
 			}
 			trig := "session " + form + " entry " + b.Entry
 			if b.Prog.Name != "" {
@@ -497,9 +571,11 @@ func run(c *fw.Ctx) error {
 					mode = mode[:i]
 				}
 				c.Fail(trig, stripPos(mode), rep)
-			case o.Stdout != b.ExpectedStdout():
+			case o.Stdout != wantOut:
 				c.Fail(trig, "final output differs", rep)
-			case !reflect.DeepEqual(o.Globals, want):
+			case form != "files" && !reflect.DeepEqual(o.Globals, want):
+				// (Globals() lists the package evaluated by name "main": a package directory evaluated with
+				// EvalPath is not reported there; its final state is what the last line of main prints)
 				c.Fail(trig, "final globals differ", rep)
 			}
 		}
